@@ -143,6 +143,110 @@ fn check_kt(k: u32, t: u16, all_scalars: bool, mode: u8) -> Result<u64, String> 
     }
 }
 
+
+/// column patterns for the T sweep: 7 fixed K-byte columns; column j of the T-byte-symbol block carries pattern idx(j)
+fn sweep_idx(j: usize) -> usize {
+    (j + j / 7 + j / 64 + j / 4096) % 7
+}
+
+fn sweep_patterns(k: u32) -> Vec<Vec<u8>> {
+    let k = k as usize;
+    let mut v = vec![data_pos(k), data_lcg(3, k), data_ff(k), data_lcg(77, k), vec![0u8; k], data_lcg(5, k), data_pos(2 * k)[k..].to_vec()];
+    v[4][k / 2] = 1;
+    v
+}
+
+/// (v) T sweep: one encode per (K, T); every byte column of every packet must equal the 1-byte packet of the
+/// pattern that column carries, and decoding with two erasures must return the data
+/// structured symbols: symbol i is one 8-byte word repeated (zero word, constant byte, arbitrary word), so that
+/// byte column j only depends on j mod 8 and whole symbols are zero / constant / periodic
+fn structured_columns(k: u32) -> Vec<Vec<u8>> {
+    let k = k as usize;
+    let r = data_lcg(41, 8 * k);
+    (0..8)
+        .map(|c| {
+            (0..k)
+                .map(|i| match i % 4 {
+                    0 => 0u8,
+                    1 => 0xA5u8.wrapping_add(i as u8) | 1,
+                    2 => r[8 * i + c],
+                    _ => if c % 2 == 0 { r[8 * i] } else { r[8 * i + 1] },
+                })
+                .collect()
+        })
+        .collect()
+}
+
+fn check_sweep(k: u32, t: u16, mode: u8, plan: &SourceBlockEncodingPlan, pc: &[Vec<Vec<u8>>], structured: bool) -> Result<u64, String> {
+    let tt = t as usize;
+    let pats = if structured { structured_columns(k) } else { sweep_patterns(k) };
+    let sweep_idx = |j: usize| if structured { j % 8 } else { sweep_idx(j) };
+    let mut data = vec![0u8; k as usize * tt];
+    for i in 0..k as usize {
+        for j in 0..tt {
+            data[i * tt + j] = pats[sweep_idx(j)][i];
+        }
+    }
+    let ctx = format!("K={} T={} mode={} ({})", k, t, ["cache", "plan", "unplanned"][mode as usize], if structured { "structured symbols: zero / constant / periodic" } else { "sweep" });
+    let ids = esis_for(k);
+    let r = guarded(|| {
+        let enc = build(k, t, &data, mode, plan);
+        let all = packets(&enc, k);
+        if all.len() != ids.len() {
+            return Err(format!("{}: {} packets", ctx, all.len()));
+        }
+        for (e, p) in all.iter().enumerate() {
+            let d = p.data();
+            if d.len() != tt {
+                return Err(format!("{}: ESI {} payload has {} bytes", ctx, ids[e], d.len()));
+            }
+            for j in 0..tt {
+                let want = pc[sweep_idx(j)][e][0];
+                if d[j] != want {
+                    return Err(format!("{}: ESI {}: byte {} of the T-byte packet is {:#04x}, encoding that byte column alone gives {:#04x}", ctx, ids[e], j, d[j], want));
+                }
+            }
+        }
+        let mut dec = raptorq::SourceBlockDecoder::new(0, &block_cfg(k, t), data.len() as u64);
+        let erased = [0u32, k / 2];
+        let feed: Vec<EncodingPacket> = all.iter().filter(|p| !erased.contains(&p.payload_id().encoding_symbol_id())).cloned().collect();
+        match dec.decode(feed) {
+            Some(d) if d == data => {}
+            Some(_) => return Err(format!("{}: decoding with symbols {:?} erased returns wrong data", ctx, erased)),
+            None => return Err(format!("{}: decoding with symbols {:?} erased and 12 repair symbols fails (it succeeds for T=1)", ctx, erased)),
+        }
+        Ok(tt as u64 * ids.len() as u64)
+    });
+    match r {
+        Ok(x) => x,
+        Err(p) => Err(format!("{}: panic {}", ctx, p)),
+    }
+}
+
+fn sweep_reference(k: u32, plan: &SourceBlockEncodingPlan, structured: bool) -> Vec<Vec<Vec<u8>>> {
+    let cols = if structured { structured_columns(k) } else { sweep_patterns(k) };
+    cols.iter().map(|c| payloads(&build(k, 1, c, 1, plan), k)).collect()
+}
+
+pub fn sweep_ts(quick: bool) -> Vec<u16> {
+    let dense_to: u16 = if quick { 2100 } else { 65535 };
+    let mut v: Vec<u16> = (161..=dense_to).collect();
+    if quick {
+        for p in [4096u32, 8192, 16384, 32768, 49152, 65536] {
+            for d in [-2i64, -1, 0, 1, 2, 100] {
+                let t = p as i64 + d;
+                if t > dense_to as i64 && t <= 65535 {
+                    v.push(t as u16);
+                }
+            }
+        }
+        v.extend_from_slice(&[3000, 5000, 10000, 20000, 40000, 60000, 65534, 65535]);
+        v.sort_unstable();
+        v.dedup();
+    }
+    v
+}
+
 pub fn replay(case: &Value) -> Result<(), String> {
     if let Some(r) = replay_delegate("C09", case) {
         return r;
@@ -152,6 +256,15 @@ pub fn replay(case: &Value) -> Result<(), String> {
         return Err("kernel not supported on this host".into());
     }
     vk::force(kind);
+    if case["sweep"].as_bool().unwrap_or(false) {
+        let k = case["K"].as_u64().unwrap() as u32;
+        let plan = SourceBlockEncodingPlan::generate(k as u16);
+        let structured = case["structured"].as_bool().unwrap_or(false);
+        let pc = sweep_reference(k, &plan, structured);
+        let r = check_sweep(k, case["T"].as_u64().unwrap() as u16, case["mode"].as_u64().unwrap_or(0) as u8, &plan, &pc, structured);
+        vk::force(vk::AUTO);
+        return r.map(|_| ());
+    }
     let r = check_kt(case["K"].as_u64().unwrap() as u32, case["T"].as_u64().unwrap() as u16, case["all_scalars"].as_bool().unwrap_or(false), case["mode"].as_u64().unwrap_or(0) as u8);
     vk::force(vk::AUTO);
     r.map(|_| ())
@@ -200,6 +313,43 @@ pub fn run(ctx: &Ctx) -> i32 {
                 Err(msg) => st.violation(format!("{}:{}:{}:{}", kind_name(kind), k, t, m), format!("[kernel {}] {}", kind_name(kind), msg), json!({"kernel":kind_name(kind),"K":k,"T":t,"all_scalars":alls,"mode":m})),
             }
         });
+        // (v) T sweep
+        let sweep_kinds_all = ctx.thorough();
+        if kind == vk::AUTO || kind == vk::FALLBACK || sweep_kinds_all {
+            for &k in &(if ctx.quick() { vec![10u32] } else { vec![10u32, 26] }) {
+                let plan = SourceBlockEncodingPlan::generate(k as u16);
+                let pc = sweep_reference(k, &plan, false);
+                let pcs = sweep_reference(k, &plan, true);
+                let mut tsw: Vec<u16> = (1..=160).collect();
+                tsw.extend(sweep_ts(ctx.quick()));
+                if kind != vk::AUTO || k != 10 {
+                    tsw.retain(|&t| t <= if ctx.quick() { 700 } else { 8300 } || t % 1021 == 0 || t >= 65530);
+                }
+                tsw.reverse();
+                par_for(tsw.len(), |i| {
+                    let t = tsw[i];
+                    let m = (t % 3) as u8;
+                    for structured in [false, true] {
+                        if structured && !(t % 8 == 0 || t <= 400) {
+                            continue;
+                        }
+                        if !structured && t <= 160 {
+                            continue; // covered by the main grid
+                        }
+                        match check_sweep(k, t, m, &plan, if structured { &pcs } else { &pc }, structured) {
+                            Ok(n) => {
+                                st.eval(n);
+                                st.nontriv(1);
+                                st.count(&format!("sweep_points_{}", kind_name(kind)), 1);
+                                if structured { st.count("sweep_points_structured_symbols", 1); }
+                                st.count("sweep_bytes_checked", n);
+                            }
+                            Err(msg) => st.violation(format!("sweep:{}:{}:{}:{}:{}", kind_name(kind), k, t, m, structured), format!("[kernel {}] {}", kind_name(kind), msg), json!({"kernel":kind_name(kind),"K":k,"T":t,"mode":m,"sweep":true,"structured":structured})),
+                        }
+                    }
+                });
+            }
+        }
         st.outcome(kind_name(kind));
     }
     vk::force(vk::AUTO);
@@ -207,10 +357,10 @@ pub fn run(ctx: &Ctx) -> i32 {
     st.sample(json!({"kernel":"avx2","K":26,"T":67,"mode":"plan","relations":["byte j of each of the 38 packets = 1-byte packet of column j, j=0..66, data pos and lcg","Enc(A^B)=Enc(A)^Enc(B) for 6 pairs","Enc(c*A)=c*Enc(A) for all 256 c","decode with symbols {0,13} erased"]}));
     finish(ctx, &st, Finish {
         level: "exploration",
-        rule: format!("grid: kernel family in {:?} (forced through the public dispatchers) x K in {:?} x every T in 1..={} and {{255,256,257,1023,1024,1280{}}} x encoder built via cache / explicit plan / unplanned; ESIs: all source, 8 near repair, 4 far repair. For every point: (i) byte j of every packet equals the 1-byte packet obtained by encoding byte column j alone, for every j (data pos and lcg), (ii) additivity for all pairs of {{pos,lcg,unit0,ff}}, (iii) homogeneity for all 256 scalars (T<=70 and T around 128/192/256; 6 scalars elsewhere) with reference GF multiplication, (iv) decoding with two source symbols erased returns the data. distinct_nontrivial = (kernel,K,T,mode) points.", kinds.iter().map(|&k| kind_name(k)).collect::<Vec<_>>(), ks, if ctx.quick() { 160 } else { 192 }, if ctx.quick() { "" } else { ",65535" }),
+        rule: format!("grid: kernel family in {:?} (forced through the public dispatchers) x K in {:?} x every T in 1..={} and {{255,256,257,1023,1024,1280{}}} x encoder built via cache / explicit plan / unplanned; ESIs: all source, 8 near repair, 4 far repair. For every point: (i) byte j of every packet equals the 1-byte packet obtained by encoding byte column j alone, for every j (data pos and lcg), (ii) additivity for all pairs of {{pos,lcg,unit0,ff}}, (iii) homogeneity for all 256 scalars (T<=70 and T around 128/192/256; 6 scalars elsewhere) with reference GF multiplication, (iv) decoding with two source symbols erased returns the data. (v) T sweep (kernel auto and portable{}): K=10{} x every T in 161..={} plus powers of two +-{{0,1,2,100}} up to 65535, one encode per T of a block whose byte columns carry 7 fixed patterns in an aperiodic arrangement: every byte of every packet must equal the 1-byte packet of its column's pattern, and decoding with two erasures returns the data; the same with structured symbols (each symbol one 8-byte word repeated: zero, constant and periodic symbols) for every T<=400 and every multiple of 8. distinct_nontrivial = (kernel,K,T,mode) points.", kinds.iter().map(|&k| kind_name(k)).collect::<Vec<_>>(), ks, if ctx.quick() { 160 } else { 192 }, if ctx.quick() { "" } else { ",65535" }, if ctx.quick() { "" } else { "; all forced kernels on a reduced T set" }, if ctx.quick() { "" } else { " and 26" }, if ctx.quick() { 2100 } else { 65535 }),
         exhaustive: false,
         assumptions: vec!["T outside the alphabet (193..65534 except the listed ones) is not enumerated".into(), "NEON cannot execute on this host".into()],
         extra: Map::new(),
-        must_be_nonzero: vec!["kt_points_auto", "kt_points_avx2", "kt_points_ssse3", "kt_points_portable", "relations_checked"],
+        must_be_nonzero: vec!["kt_points_auto", "kt_points_avx2", "kt_points_ssse3", "kt_points_portable", "relations_checked", "sweep_points_auto", "sweep_points_portable", "sweep_points_structured_symbols"],
     }, replay)
 }
